@@ -108,7 +108,8 @@ JudgeKeygen(e, c) ==
 (* ======================================================================= *)
 (* the callback protocol as observed: number of invocations, argument      *)
 CbVerdicts(e, expectCb, next) ==
-    IF ~expectCb THEN CmpVal("cb_count", 0, e.cb_n)
+    IF e.api # "bytes" THEN <<>>          \* SigningKey's own closure is not observable; mem_after is
+    ELSE IF ~expectCb THEN CmpVal("cb_count", 0, e.cb_n)
     ELSE CmpVal("cb_count", 1, e.cb_n)
          \o (IF e.cb_n >= 1 THEN CmpBytes("cb_arg", next, e.cb[1].arg) ELSE <<>>)
 
